@@ -57,6 +57,8 @@ fn common_events() -> Vec<Ev> {
         "X=5", "S$=\"z\"", "DIM A(3)", "A(1)=2", "FOR I=1 TO 9", "READ Q", "RUN", "CONT", "PRINT 1/0", "INPUT X",
         // program edits: the probe compares with a fresh interpreter holding the *edited* program
         "50", "50 DATA 33,44", "15 PRINT \"e\";", "IF 1 THEN PRINT (((1/0)))",
+        // moves the generator away from its initial state
+        "Y=RND(1)",
     ]
     .iter()
     .map(|l| Ev::Line(l.to_string()))
@@ -69,10 +71,17 @@ fn common_events() -> Vec<Ev> {
     v
 }
 
+/// Spellings of the command (text after the word is ignored by the command processor).
+const RUN_SPELLINGS: [&str; 3] = ["RUN", "run", "RUN 30"];
+
 fn drive_run(s: &mut Sess) -> (Vec<String>, VerifState) {
+    drive_run_as(s, "RUN")
+}
+
+fn drive_run_as(s: &mut Sess, cmd: &str) -> (Vec<String>, VerifState) {
     s.recs.clear();
     let mut replies = vec!["7".to_string(), "8".to_string(), "q".to_string(), "9".to_string()].into_iter();
-    let end = s.run_line("RUN", &mut replies, 500);
+    let end = s.run_line(cmd, &mut replies, 500);
     let mut t: Vec<String> = s.recs.iter().map(|r| format!("{:?}", r)).collect();
     t.push(format!("{:?}", end));
     (t, s.it.verif_snapshot())
@@ -109,54 +118,56 @@ pub fn run(thorough: bool) -> Report {
             }
             probe_count.fetch_add(1, std::sync::atomic::Ordering::Relaxed);
             let mk = || Sess::new();
-            let mut s = replay(&mk, hist);
-            // the reference: a fresh interpreter given the program as it is listed now
-            let fresh = {
-                let mut l = replay(&mk, hist);
-                l.recs.clear();
-                let _ = l.apply(&Ev::Line("LIST".into()));
-                let lines: Vec<String> = l.recs.iter().filter_map(|r| if let Rec::Print(p) = r { Some(p.trim_end_matches('\n').to_string()) } else { None }).collect();
-                let mut f = Sess::new();
-                for line in &lines {
-                    let _ = f.apply(&Ev::Line(line.clone()));
-                }
-                f.it.randomize(12345);
-                drive_run(&mut f)
-            };
-            let r = guarded(|| {
-                s.it.randomize(12345);
-                drive_run(&mut s)
-            });
-            let mut full = hist.to_vec();
-            full.push(Ev::Randomize(12345));
-            full.push(Ev::Line("RUN".into()));
-            let _ = &root2;
-            match r {
-                Err(pn) => vec![Violation {
-                    signature: format!("panic {}", short_panic(&pn)),
-                    detail: pn,
-                    case: case_history(&full, false, false),
-                }],
-                Ok((t, fin)) => {
-                    if t != fresh.0 {
-                        // first differing record
-                        let i = t.iter().zip(&fresh.0).position(|(a, b)| a != b).unwrap_or(t.len().min(fresh.0.len()));
-                        vec![Violation {
-                            signature: format!("{} RUN transcript differs from a fresh interpreter: {} vs {}", p.name, t.get(i).cloned().unwrap_or_default(), fresh.0.get(i).cloned().unwrap_or_default()),
-                            detail: format!("after the history, RUN gives {:?}; in a fresh interpreter with the same program and seed it gives {:?}", t, fresh.0),
-                            case: case_history(&full, false, false),
-                        }]
-                    } else if fin != fresh.1 {
-                        vec![Violation {
-                            signature: format!("{} state after RUN differs from a fresh interpreter", p.name),
-                            detail: format!("final state {:?} vs {:?}", fin, fresh.1),
-                            case: case_history(&full, false, false),
-                        }]
-                    } else {
-                        vec![]
+            let mut out = vec![];
+            for cmd in RUN_SPELLINGS {
+                let mut s = replay(&mk, hist);
+                // the reference: a fresh interpreter given the program as it is listed now
+                let fresh = {
+                    let mut l = replay(&mk, hist);
+                    l.recs.clear();
+                    let _ = l.apply(&Ev::Line("LIST".into()));
+                    let lines: Vec<String> = l.recs.iter().filter_map(|r| if let Rec::Print(p) = r { Some(p.trim_end_matches('\n').to_string()) } else { None }).collect();
+                    let mut f = Sess::new();
+                    for line in &lines {
+                        let _ = f.apply(&Ev::Line(line.clone()));
+                    }
+                    // ... and the same generator state as the session has reached
+                    f.it.randomize(snap.rng_state);
+                    drive_run_as(&mut f, cmd)
+                };
+                let r = guarded(|| drive_run_as(&mut s, cmd));
+                let mut full = hist.to_vec();
+                full.push(Ev::Line(cmd.to_string()));
+                let _ = &root2;
+                match r {
+                    Err(pn) => out.push(Violation {
+                        signature: format!("panic {}", short_panic(&pn)),
+                        detail: pn,
+                        case: case_history(&full, false, false),
+                    }),
+                    Ok((t, fin)) => {
+                        if t != fresh.0 {
+                            // first differing record
+                            let i = t.iter().zip(&fresh.0).position(|(a, b)| a != b).unwrap_or(t.len().min(fresh.0.len()));
+                            out.push(Violation {
+                                signature: format!("{} {} transcript differs from a fresh interpreter: {} vs {}", p.name, cmd, t.get(i).cloned().unwrap_or_default(), fresh.0.get(i).cloned().unwrap_or_default()),
+                                detail: format!("after the history, {} gives {:?}; in a fresh interpreter with the same program and generator state it gives {:?}", cmd, t, fresh.0),
+                                case: case_history(&full, false, false),
+                            });
+                        } else if fin != fresh.1 {
+                            out.push(Violation {
+                                signature: format!("{} state after {} differs from a fresh interpreter", p.name, cmd),
+                                detail: format!("final state {:?} vs {:?}", fin, fresh.1),
+                                case: case_history(&full, false, false),
+                            });
+                        }
                     }
                 }
+                if !out.is_empty() {
+                    break;
+                }
             }
+            out
         };
         let check = |t: &Transition, _s: &mut Sess| -> Vec<Violation> {
             if let CallResult::Panic(pn) = t.result {
